@@ -187,7 +187,7 @@ def conditions(tier):
         for fx in partitions([('api', range(5)), ('pidx', range(depth + 1))]):
             nm = f'chain_{lname}_{APIS[fx["api"]]}_p{fx["pidx"]}'
             cs.append(make_cond(
-                nm, sc, run_api, judge_api, fx, timeout=300, group='M-chain',
+                nm, sc, run_api, judge_api, fx, timeout=300 if tier == 'quick' else 1200, group='M-chain',
                 twin=(fx['pidx'] == depth),
                 descr=f'{APIS[fx["api"]]} at level {fx["pidx"]} of a depth-{depth} Manifest '
                       f'chain ({names}); every Manifest file (size,digest) and every MANIFEST '
